@@ -27,6 +27,7 @@ func run(cfg lib.Cfg) error {
 		return out.Flush()
 	}
 	for _, c := range rows.Corpus11() {
+		c.Abi = true
 		for _, k := range rows.RunCase(c) {
 			out.Add(k)
 		}
@@ -39,6 +40,7 @@ func run(cfg lib.Cfg) error {
 	opts := rows.GenOpts{}
 	for i := 0; i < n; i++ {
 		c := rows.GenCase(r, opts, i)
+		c.Abi = true
 		for _, k := range rows.RunCase(c) {
 			out.Add(k)
 		}
